@@ -211,7 +211,7 @@ func rule063(r *core.Run, ctx *oblig.Ctx) {
 		}
 	}
 	boundsRule(r, ctx, "R06.3", scope)
-	r.Floor("R06.3", 8, "uploader bounds sites")
+	r.Floor("R06.3", 5, "uploader bounds sites")
 }
 
 func rule064(r *core.Run) {
@@ -414,7 +414,7 @@ func rule066(r *core.Run, ctx *oblig.Ctx) {
 			}
 		}
 		se := r.P.SliceOfMany(etagVals, core.SliceOpts{Depth: 1})
-		r.Check(len(etagVals) > 0 && se.Has("call:crypto/md5.New") && body != nil && se.HasValue(body) && se.Has("call:encoding/hex.EncodeToString"), "R06.6", key(k, "ETag is MD5(body)"), pos(r, st),
+		r.Check(len(etagVals) > 0 && (se.Has("call:crypto/md5.New") || se.Has("call:crypto/md5.Sum")) && body != nil && se.HasValue(body) && se.Has("call:encoding/hex.EncodeToString"), "R06.6", key(k, "ETag is MD5(body)"), pos(r, st),
 			"ETag derives from md5 over the read body", "the stored part's ETag is not the hex MD5 of the body that was stored")
 		// no error return after the store
 		for ret, ev := range returnedErrors(fn) {
